@@ -50,6 +50,11 @@ def check_line(arg):
     if sem.logs != ref.sem.logs:
         bad("logs", f"log tokens {sorted(sem.logs)} != {sorted(ref.sem.logs)}")
     # rendered line, read independently on the same platform
+    rt = ace.line.split()
+    rp = (rt[2] if rt and rt[0].isdigit() else rt[1]) if len(rt) > 2 else ""
+    if any(t in ("eq", "neq", "gt", "lt", "range") for t in rt) and rp not in ("tcp", "udp") and ref.sem.proto is not None and ref.sem.proto <= {6, 17}:
+        # device syntax: a port operator is only accepted after the keyword tcp / udp (accepted as INPUT spelling `6` / `17`, never rendered that way)
+        fails.append(dict(key="bounded/Ace.line:syntax:port-after-protocol-number", what=f"rendered {ace.line!r} puts a port operator after the protocol {rp!r}", inputs=inputs))
     try:
         ref2 = cisco_ref.read_ace(ace.line, platform)
         w = sets.sem_equal(ref2.sem, ref.sem)
